@@ -8,31 +8,6 @@ import StraxModel.Lemmas.PipelineBridge
 namespace Strax.Pipeline
 open Strax
 
-/-- a two-kind plugin that computes row-wise on its first dependency (`pairfirst` of the harness; the
-second dependency only takes part in the alignment) -/
-def firstKernel (g : Row → Option Row) (out : String) : Kernel where
-  nIn := 2
-  nOut := 1
-  chunked
-    | [a, _] => .ok [perChunk (List.filterMap g) out a]
-    | _ => .error .other
-  whole
-    | [r, _] => [r.filterMap g]
-    | _ => []
-
-theorem firstKernel_hom {g : Row → Option Row} (hg : IntervalPreserving g) (out : String) :
-    ChunkHom (firstKernel g out) := by
-  intro R ins outs hl hal h
-  obtain ⟨a, b, rfl⟩ := length_two hl
-  simp only [firstKernel, Except.ok.injEq] at h
-  subst h
-  obtain ⟨hs, hsp⟩ := hal.1 a (by simp)
-  refine ⟨rfl, streamsOK_single.2 ⟨?_, ?_⟩, ?_⟩
-  · exact lawAbiding_perChunk (fun c hc => chunkOK_filterMap hg out c hc) hs
-  · rw [span_perChunk]; exact hsp
-  · simp only [firstKernel, List.map_cons, List.map_nil, List.cons.injEq, and_true]
-    rw [rows_perChunk, rows_eq_flatten, ← flatMap_filterMap, List.flatMap_map]
-
 /-- a down-chunking `compute` that yields its result in one piece -/
 def onePiece (g : Row → Option Row) (out : String) (c : Chunk) : List Chunk := [setRows out c (c.rows.filterMap g)]
 
@@ -59,6 +34,59 @@ theorem rangeLaw_of_map {f : List Row → Row → Row} (hf : ∀ all r, (f all r
     have := (hf rs x).1
     have := (hf rs y).1
     omega
+
+/-- a plugin stamps its own data type and the data kind of its input on what it emits (the overlap-window model of
+C09 labels its output `out` / `outk`) -/
+def restampChunk (out kind : String) (c : Chunk) : Chunk := { c with dataType := out, kind := kind }
+
+def kindOfIns : List (List Chunk) → String
+  | (c :: _) :: _ => c.kind
+  | _ => ""
+
+def restamp (out : String) (k : Kernel) : Kernel :=
+  { k with chunked := fun ins =>
+      match k.chunked ins with
+      | .error e => .error e
+      | .ok outs => .ok (outs.map fun s => s.map (restampChunk out (kindOfIns ins))) }
+
+theorem restamp_stream (out kind : String) : ∀ (s : List Chunk),
+    rows (s.map (restampChunk out kind)) = rows s ∧ bounds (s.map (restampChunk out kind)) = bounds s ∧
+      ((∀ c ∈ s, chunkOKB c = true) → ∀ c ∈ s.map (restampChunk out kind), chunkOKB c = true)
+  | [] => ⟨rfl, rfl, fun _ c hc => by simp at hc⟩
+  | c :: s => by
+    obtain ⟨i1, i2, i3⟩ := restamp_stream out kind s
+    refine ⟨by simp only [List.map_cons, rows_cons, i1]; rfl, ?_, ?_⟩
+    · simp only [bounds, List.map_cons] at i2 ⊢; rw [i2]; rfl
+    · intro h x hx
+      simp only [List.map_cons, List.mem_cons] at hx
+      rcases hx with rfl | hx
+      · have := h c (by simp)
+        simp only [chunkOKB, restampChunk] at this ⊢
+        exact this
+      · exact i3 (fun y hy => h y (by simp [hy])) x hx
+
+theorem restamp_hom {k : Kernel} (out : String) (h : ChunkHom k) : ChunkHom (restamp out k) := by
+  intro R ins outs hl hal hc
+  simp only [restamp] at hc hl
+  cases hk : k.chunked ins with
+  | error e => simp [hk] at hc
+  | ok o =>
+    simp only [hk, Except.ok.injEq] at hc
+    subst hc
+    obtain ⟨h1, h2, h3⟩ := h R ins o hl hal hk
+    refine ⟨by simpa [restamp] using h1, ?_, ?_⟩
+    · intro s hs
+      simp only [List.mem_map] at hs
+      obtain ⟨s0, hs0, rfl⟩ := hs
+      obtain ⟨hl0, hsp0⟩ := h2 s0 hs0
+      obtain ⟨-, r2, r3⟩ := restamp_stream out (kindOfIns ins) s0
+      exact ⟨lawAbiding_of (r3 hl0.all_ok) (by rw [adjacentB_of_bounds r2]; exact hl0.adjacent),
+        by rw [span_of_bounds r2]; exact hsp0⟩
+    · simp only [restamp, List.map_map]
+      rw [← h3]
+      apply List.map_congr_left
+      intro s0 _
+      exact (restamp_stream out (kindOfIns ins) s0).1
 
 namespace Vocab
 
@@ -105,7 +133,7 @@ def kernelOf : VKind → List String → Kernel
   | .multi c m r, outs => pairKernel (mapKernel (gMap c) (out0 outs)) (mapKernel (gFilter m r) (out1 outs))
   | .pairfirst c, outs => firstKernel (gMap c) (out0 outs)
   | .loop, outs => loopKernel loopId (out0 outs)
-  | .overlap w, _ => overlapKernel (overlapWhole w) (w, w)
+  | .overlap w, outs => restamp (out0 outs) (overlapKernel (overlapWhole w) (w, w))
   | .downchunk c, outs => downKernel (onePiece (gMap c) (out0 outs)) (gMap c)
   | .exhaust c, outs => exhaustKernel (exhaustWhole c) (out0 outs)
 
@@ -131,7 +159,7 @@ theorem kernelOf_hom (k : VKind) (outs : List String) (h : isOverlap k = false) 
 /-- the overlap window is one as soon as C09's theorem holds of its state machine -/
 theorem kernelOf_hom_overlap (w : Nat) (outs : List String)
     (h : StreamSpec (Overlap.runOverlap (overlapWhole w) (w, w)) (overlapWhole w)) :
-    ChunkHom (kernelOf (.overlap w) outs) := streamKernel_hom h
+    ChunkHom (kernelOf (.overlap w) outs) := restamp_hom _ (streamKernel_hom h)
 
 /-- the whole-run meaning of the kernels is the function the driver evaluates -/
 theorem kernelOf_whole (k : VKind) (outs : List String) (ins : List (List Row)) :
@@ -189,20 +217,22 @@ theorem kernelOf_whole (k : VKind) (outs : List String) (ins : List (List Row)) 
     | _ :: _ :: _ => rfl
 
 /-- which aligner a vocabulary node uses: a single dependency needs none, the exhaust plugin
-concatenates, anything with two dependencies goes through `Plugin.iter` (`a2`) -/
-def alignerOf (a2 : Aligner) : VKind → Aligner
-  | .merge => a2
-  | .pairfirst _ => a2
-  | .loop => a2
+concatenates, anything with two dependencies goes through `Plugin.iter` (`a2 n`, which may depend on the
+node: its dependency kinds and save policy) -/
+def alignerOf (a2 : VNode → Aligner) (n : VNode) : Aligner :=
+  match n.kind with
+  | .merge => a2 n
+  | .pairfirst _ => a2 n
+  | .loop => a2 n
   | .exhaust _ => Aligner.exhaust
   | _ => Aligner.single
 
-def toNode (a2 : Aligner) (n : VNode) : Node :=
-  { name := out0 n.outs, deps := n.deps, provides := n.outs, aligner := alignerOf a2 n.kind,
+def toNode (a2 : VNode → Aligner) (n : VNode) : Node :=
+  { name := out0 n.outs, deps := n.deps, provides := n.outs, aligner := alignerOf a2 n,
     kernel := kernelOf n.kind n.outs }
 
 /-- `whole` of the theory, on a vocabulary graph, is the driver's `wholeV` -/
-theorem whole_eq_wholeV (a2 : Aligner) :
+theorem whole_eq_wholeV (a2 : VNode → Aligner) :
     ∀ (g : List VNode) (w : WEnv), (∀ n ∈ g, n.outs ≠ []) → whole (g.map (toNode a2)) w = wholeV g w
   | [], _, _ => rfl
   | n :: g, w, hne => by
